@@ -206,8 +206,45 @@ def constructions(fx, rep, decoders):
     return n
 
 
+def seconds_pass_through(fx, rep):
+    """R14d: in every From impl between the wire / transport / API time types the seconds operand is passed on unchanged or
+    through one same-width integer cast (i32 <-> u32 is bit-preserving, so the opposite conversion restores it). A clamp,
+    try_from or arithmetic on one side would make the two directions disagree for some second values."""
+    n = 0
+    for b in fx.bodies.values():
+        if not (b.is_fn_like() and b.item_name == "from" and (b.impl_trait or "").endswith("From") and "::tests::" not in b.sname):
+            continue
+        if not any(x in (b.impl_self or "") for x in ("Time", "Duration")):
+            continue
+        fc = FnCtx(b)
+        ops = []
+        for bb, t in fc.mir.calls():
+            if not t.callee.indirect and t.callee.method() == "new" and len(t.args) == 2:
+                ops.append((fc.arg(t, 0), t.line))
+        for bb, i, s in fc.mir.stmts():
+            if s.kind == "assign" and s.rv is not None and s.rv.kind == "aggregate" and s.rv.agg.get("k") == "adt" and (s.rv.agg.get("fields") or [None])[0] in ("sec", "seconds"):
+                ops.append((fc.rv_expr(s)[3][0], s.line))
+        for e, line in ops:
+            src_is_std = any(x[0] == "call" and x[1].endswith(("::as_secs", "::subsec_nanos")) for x in E.walk(e)) or (e[0] == "cast" and (e[1] == "u64" or (len(e) > 4 and e[4] == "u64")))
+            if src_is_std:
+                continue   # core::time::Duration has a different range by design
+            n += 1
+            inner = e
+            casts = 0
+            while inner[0] == "cast":
+                ok_w = inner[3] == "IntToInt" and inner[1] in ("i32", "u32") and (len(inner) < 5 or inner[4] in ("i32", "u32"))
+                casts += 1 if ok_w else 10
+                inner = inner[2]
+            plain = inner[0] in ("param", "local") or (inner[0] == "call" and inner[1].split("::")[-1] in ("sec", "seconds") and not inner[4])
+            rep.add("R14d", b.sname, "seconds cross this conversion unchanged (at most one i32 <-> u32 cast)", plain and casts <= 1,
+                    "seconds operand is %s: the opposite conversion is a plain cast, so the pair no longer round-trips every second value" % fc.show(e)[:120], b.loc(line))
+    return n
+
+
 def run(ctx, rep):
     fx = ctx.facts
+    nsec = seconds_pass_through(fx, rep)
+    rep.floor("R14d", nsec, 6, "seconds operands in Time/Duration From impls")
     enc, dec = scaling_functions(fx, rep)
     rep.floor("R14a-enc", len(enc), 2, "nanosecond->fraction encoders (infrastructure/time.rs, rtps_messages/types.rs)")
     rep.floor("R14a-dec", len(dec), 3, "fraction->nanosecond decoders (two copies + behavior_types)")
